@@ -176,6 +176,7 @@ pub fn run_point(rep: &mut Report, rng: &mut Rng, thorough: bool, index: usize) 
             inputs.push((0..(3usize << 20) + 77).map(|k| pat[k % 1024]).collect());
         }
         let mut first = true;
+        let mut xz_first = true;
         for data in &inputs {
             let huge_dict = o.dict > (1 << 28);
             if huge_dict && data.len() > 1000 {
@@ -218,10 +219,18 @@ pub fn run_point(rep: &mut Report, rng: &mut Rng, thorough: bool, index: usize) 
                 Outcome::Ok((d, _)) if &d == data => Ok(()),
                 other => Err(other.describe()),
             });
-            // XZ
-            if o.preset.is_none() {
+            // XZ and LZIP: also with a preset dictionary in the option struct - neither format can announce one, so the
+            // writer must refuse it or not use it (the readers below have none)
+            {
                 let xo = XzOpts { lz: o.clone(), check: 1, block: None, filters: vec![] };
                 let r = xz_compress(data, &xo, &[data.len()], 0);
+                if xz_first {
+                    xz_first = false;
+                    rep.model(
+                        format!("opts.validate kind=xz dict={} lc={} lp={} pb={} nice={} preset={}", o.dict, o.lc, o.lp, o.pb, o.nice, o.preset.as_ref().map(|p| p.len()).unwrap_or(0)),
+                        match &r { Outcome::Ok(_) => "ok", Outcome::Err(std::io::ErrorKind::InvalidInput, _) => "err", Outcome::Err(..) => "err-other", Outcome::Panic(_) => "panic" }.to_string(),
+                    );
+                }
                 verdict(rep, "xz", &point, data.len(), r, |c| match xz_decompress(&c, false, &[65536], data.len() + 16) {
                     Outcome::Ok((d, _)) if &d == data => Ok(()),
                     other => Err(other.describe()),
@@ -232,6 +241,8 @@ pub fn run_point(rep: &mut Report, rng: &mut Rng, thorough: bool, index: usize) 
                     Outcome::Ok((d, _)) if &d == data => Ok(()),
                     other => Err(other.describe()),
                 });
+            }
+            if o.preset.is_none() {
                 // MT writers
                 if data.len() < 100_000 {
                     let o1 = o.clone();
